@@ -1,6 +1,7 @@
 package main
 
 import (
+	"reflect"
 	"container/list"
 	"fmt"
 	"strings"
@@ -272,8 +273,37 @@ func lunarP(s *calendar.Solar, j int) *calendar.Lunar {
 			}
 		}
 	}
+	if (j/4)%3 == 1 {
+		// ask first: every zero-argument accessor of the object is called once (in an order that rotates
+		// with the day) before the check reads what it is interested in; a read-only accessor leaves the object as it was
+		askAllLunar(l, j/12)
+	}
 	if j%2 == 0 {
 		l.GetEightChar().SetSect(1)
 	}
 	return l
+}
+
+// askAllLunar calls every exported zero-argument accessor of a lunar date once (panics recovered: totality is C08's
+// business) and discards the answers. rot picks the visiting order: the method list is walked cyclically from position
+// 37*rot, forwards for even rot and backwards for odd rot, so that over the days of a sweep every accessor is preceded
+// by every other one.
+func askAllLunar(l *calendar.Lunar, rot int) {
+	v := reflect.ValueOf(l)
+	idx := zeroArgMethods(v.Type())
+	n := len(idx)
+	if rot < 0 {
+		rot = -rot
+	}
+	for k := 0; k < n; k++ {
+		pos := (37*rot + k) % n
+		if rot%2 == 1 {
+			pos = ((37*rot-k)%n + n) % n
+		}
+		i := idx[pos]
+		func() {
+			defer func() { recover() }()
+			v.Method(i).Call(nil)
+		}()
+	}
 }
